@@ -101,7 +101,18 @@ fn node_code(p: &Program, i: usize, op: &Op, out_deg: usize) -> NodeCode {
         Op::DeferTickLazy => simple("defer_tick_lazy()".into(), one_in(), one_out()),
         Op::Union => simple("union()".into(), vec![n.clone(); 8], one_out()),
         Op::Chain => simple("chain()".into(), two_in("0", "1"), one_out()),
-        Op::ChainFirstN { n: k } => simple(format!("chain_first_n({k})"), two_in("0", "1"), one_out()),
+        // chain_first_n stops pulling after n items: lazily pulled operators upstream of it in the
+        // same subgraph would then not see the rest of their input (unspecified); an explicit
+        // handoff in front of each input makes the upstream run to completion
+        Op::ChainFirstN { n: k } => NodeCode {
+            stmts: vec![
+                format!("{n} = chain_first_n({k});"),
+                format!("{n}_a = identity::<It>() -> handoff() -> [0]{n};"),
+                format!("{n}_b = identity::<It>() -> handoff() -> [1]{n};"),
+            ],
+            ins: vec![format!("{n}_a"), format!("{n}_b")],
+            outs: one_out(),
+        },
         Op::Join { pl, pr, multiset, f } => simple(
             format!(
                 "{}::<{}, {}>() -> map(|(k, (a, b)): (u8, (i16, i16))| cl::join_back({f}, k, a, b))",
@@ -134,10 +145,23 @@ fn node_code(p: &Program, i: usize, op: &Op, out_deg: usize) -> NodeCode {
             two_in("0", "1"),
             one_out(),
         ),
-        Op::CrossSingleton { f } => {
-            simple(format!("cross_singleton() -> map(|(a, b): (It, It)| cl::pair_back({f}, a, b))"), two_in("input", "single"), one_out())
-        }
-        Op::DeferSignal => simple("defer_signal()".into(), two_in("input", "signal"), one_out()),
+        // cross_singleton short-circuits (documented): only the first `single` item is pulled and
+        // `input` is not pulled at all when `single` is empty; defer_signal pulls only the first
+        // signal. Handoffs in front, as for chain_first_n.
+        Op::CrossSingleton { f } => NodeCode {
+            stmts: vec![
+                format!("{n} = cross_singleton() -> map(|(a, b): (It, It)| cl::pair_back({f}, a, b));"),
+                format!("{n}_i = identity::<It>() -> handoff() -> [input]{n};"),
+                format!("{n}_s = identity::<It>() -> handoff() -> [single]{n};"),
+            ],
+            ins: vec![format!("{n}_i"), format!("{n}_s")],
+            outs: one_out(),
+        },
+        Op::DeferSignal => NodeCode {
+            stmts: vec![format!("{n} = defer_signal();"), format!("{n}_s = identity::<It>() -> handoff() -> [signal]{n};")],
+            ins: vec![format!("[input]{n}"), format!("{n}_s")],
+            outs: one_out(),
+        },
         Op::Tee => simple("tee()".into(), one_in(), vec![n.clone(); out_deg.max(1)]),
         Op::Partition { f, n: k } => {
             let names: Vec<String> = (0..*k).map(|j| format!("p{j}")).collect();
